@@ -27,7 +27,7 @@ CR = 1e3
 def BOUNDS(tier):
     return {'max_order': 4 if tier == 'quick' else 6, 'operator_max_order': 2 if tier == 'quick' else 3, 'families': FAMS,
             'rmax': ['inf', 1, 2, 'per-bond list'], 'eps': 'complete decision walk over [1e-15,1), +-2 ulp at every breakpoint, plus eps=1e-10 default',
-            'dtypes': ['f64', 'c128', 'f32']}
+            'dtypes': ['f64', 'c128', 'f32', 'c64']}
 
 
 def cases(tier, seed):
@@ -47,14 +47,16 @@ def cases(tier, seed):
         for fam in FAMS:
             if fam in ('flat', 'flat2', 'saturating') and int(np.prod(N)) < 4:
                 continue
-            for dt in ('f64', 'c128', 'f32'):
+            for dt in ('f64', 'c128', 'f32', 'c64'):
+                if dt == 'c64' and fam not in ('lowrank', 'gauss', 'decay'):
+                    continue
                 if dt != 'f64' and (fam in ('lowrank_int', 'flat2', 'decay_huge') or (tier == 'quick' and d > 3 and max(N) < 10)):
                     continue
                 for src, shp in (('torch', 'none'), ('numpy', 'none'), ('torch', 'list')):
                     if (src, shp) != ('torch', 'none') and fam not in ('lowrank', 'decay'):
                         continue         # numpy source and prescribed-shape form: two families, every dtype
                     for rmax in ('inf', 1, 2, 'list'):
-                        if rmax != 'inf' and (d < 2 or dt == 'f32'):
+                        if rmax != 'inf' and (d < 2 or dt in ('f32', 'c64')):
                             continue
                         yield {'k': 't', 'N': N, 'fam': fam, 'dt': dt, 'src': src, 'shp': shp, 'rmax': rmax, 's': salt}
     # operators
@@ -71,7 +73,9 @@ def cases(tier, seed):
         for fam in FAMS:
             if fam in ('flat', 'flat2', 'saturating') and int(np.prod(M + N)) < 4:
                 continue
-            for dt in ('f64', 'c128'):
+            for dt in ('f64', 'c128', 'c64'):
+                if dt == 'c64' and fam not in ('lowrank', 'decay'):
+                    continue
                 if dt != 'f64' and fam in ('lowrank_int', 'flat2'):
                     continue
                 for src in ('torch', 'numpy'):
